@@ -1,14 +1,17 @@
 /-
   Lang — a deep embedding of the core of the Reduino DSL (source side) and of the emitted C++ (target side).
-  Source fragment: int/bool values; + - *, unary minus, comparisons, and/or/not, conditional expressions;
-  assignment, augmented assignment, if/elif/else, while, for-range, break, serial write, sleep; a run-once
-  prologue and an optional `while True:` main loop.
+  Source fragment: int/bool values; + - *, bitwise & | ^, floor division `//` and modulo `%`, `abs`, two-argument `min`/`max`
+  (W1), unary minus, comparisons, and/or/not, conditional expressions; assignment, augmented assignment (all binary operators), if/elif/else, while, for-range, break,
+  serial write, sleep; a run-once prologue and an optional `while True:` main loop.
 -/
 namespace Reduino.Lang
 
-inductive BinOp where | add | sub | mul
+inductive BinOp where | add | sub | mul | band | bor | bxor | fdiv | fmod
   deriving DecidableEq, Repr
 inductive CmpOp where | lt | le | gt | ge | eq | ne
+  deriving DecidableEq, Repr
+
+inductive MinMax where | min | max
   deriving DecidableEq, Repr
 
 inductive Expr where
@@ -22,6 +25,8 @@ inductive Expr where
   | or (a b : Expr)
   | not (a : Expr)
   | ite (c a b : Expr)
+  | abs (a : Expr)                      -- the builtin `abs(a)`
+  | mm (k : MinMax) (a b : Expr)        -- the builtins `min(a, b)` / `max(a, b)`; n-ary calls are the left fold `min(min(a, b), c)`
   deriving DecidableEq, Repr
 
 inductive Stmt where
@@ -74,10 +79,78 @@ inductive Ev where
   | delay (ms : Int)
   deriving DecidableEq, Repr
 
+/-! bitwise operators on arbitrary-precision two's-complement integers (Python's `& | ^` on ints; C's on in-range `int`s).
+    Core Lean has them on `Nat` only; a negative number `-(n+1)` is the complement of `n`. -/
+
+/-- `m & ~n` on naturals (`m &&& n` is a sub-mask of `m`) -/
+def natAndNot (m n : Nat) : Nat := m ^^^ (m &&& n)
+
+def bitAnd : Int → Int → Int
+  | .ofNat m, .ofNat n => .ofNat (m &&& n)
+  | .ofNat m, .negSucc n => .ofNat (natAndNot m n)
+  | .negSucc m, .ofNat n => .ofNat (natAndNot n m)
+  | .negSucc m, .negSucc n => .negSucc (m ||| n)
+
+def bitOr : Int → Int → Int
+  | .ofNat m, .ofNat n => .ofNat (m ||| n)
+  | .ofNat m, .negSucc n => .negSucc (natAndNot n m)
+  | .negSucc m, .ofNat n => .negSucc (natAndNot m n)
+  | .negSucc m, .negSucc n => .negSucc (m &&& n)
+
+def bitXor : Int → Int → Int
+  | .ofNat m, .ofNat n => .ofNat (m ^^^ n)
+  | .ofNat m, .negSucc n => .negSucc (m ^^^ n)
+  | .negSucc m, .ofNat n => .negSucc (m ^^^ n)
+  | .negSucc m, .negSucc n => .ofNat (m ^^^ n)
+
+/-- Python's operator on integers (`//` rounds toward minus infinity, `%` takes the sign of the divisor); the zero divisor is
+    excluded by `BinOp.pyEval` -/
 def BinOp.eval : BinOp → Int → Int → Int
   | .add, a, b => a + b
   | .sub, a, b => a - b
   | .mul, a, b => a * b
+  | .band, a, b => bitAnd a b
+  | .bor, a, b => bitOr a b
+  | .bxor, a, b => bitXor a b
+  | .fdiv, a, b => a.fdiv b
+  | .fmod, a, b => a.fmod b
+
+/-- what the emitted C operator (`_BIN`: `//` becomes `/`, `%` stays `%`) computes on `int`s: `/` truncates toward zero, `%` takes
+    the sign of the dividend; every other operator is Python's -/
+def BinOp.ceval : BinOp → Int → Int → Int
+  | .fdiv, a, b => a.tdiv b
+  | .fmod, a, b => a.tmod b
+  | op, a, b => op.eval a b
+
+def BinOp.isDiv : BinOp → Bool
+  | .fdiv => true
+  | .fmod => true
+  | _ => false
+
+/-- Python's value of `x op y`: bools are ints in arithmetic, but `& | ^` of two bools is a bool -/
+def BinOp.pyVal : BinOp → Val → Val → Val
+  | .band, .bool a, .bool b => .bool (a && b)
+  | .bor, .bool a, .bool b => .bool (a || b)
+  | .bxor, .bool a, .bool b => .bool (a != b)
+  | op, x, y => .int (op.eval x.toInt y.toInt)
+
+/-- the Python `ast` operator class each constructor stands for (key of the transpiler's `_BIN` table, see GenOb/Ops) -/
+def BinOp.astName : BinOp → String
+  | .add => "Add" | .sub => "Sub" | .mul => "Mult" | .band => "BitAnd" | .bor => "BitOr" | .bxor => "BitXor"
+  | .fdiv => "FloorDiv" | .fmod => "Mod"
+
+/-- Python's `min(x, y)` / `max(x, y)`: the FIRST extremal operand, returned as it is (a bool stays a bool) -/
+def MinMax.pick : MinMax → Val → Val → Val
+  | .min, x, y => if y.toInt < x.toInt then y else x
+  | .max, x, y => if y.toInt > x.toInt then y else x
+
+/-- Arduino's macros `min(a,b) ((a)<(b)?(a):(b))`, `max(a,b) ((a)>(b)?(a):(b))` on the operand values -/
+def MinMax.cpick : MinMax → Val → Val → Val
+  | .min, x, y => if x.toInt < y.toInt then x else y
+  | .max, x, y => if x.toInt > y.toInt then x else y
+
+def CmpOp.astName : CmpOp → String
+  | .lt => "Lt" | .le => "LtE" | .gt => "Gt" | .ge => "GtE" | .eq => "Eq" | .ne => "NotEq"
 
 def CmpOp.eval : CmpOp → Int → Int → Bool
   | .lt, a, b => a < b
@@ -91,6 +164,15 @@ inductive Err where
   | nameError | typeError | fuel | breakOutside | negativeDelay
   /-- a C `int` computation left the 32-bit range (undefined behaviour) -/
   | overflow
+  /-- division or modulo by zero: Python's ZeroDivisionError; undefined behaviour in C -/
+  | zeroDiv
+  /-- strict reading of the C semantics only: a `/` or `%` with a negative dividend or divisor, where C's truncating operators
+      and Python's flooring ones may differ (K01b, K01c) -/
+  | signedDiv
   deriving DecidableEq, Repr
+
+/-- Python's `x op y`: ZeroDivisionError on a zero divisor of `//` and `%` -/
+def BinOp.pyEval (op : BinOp) (x y : Val) : Except Err Val :=
+  if op.isDiv ∧ y.toInt = 0 then .error .zeroDiv else .ok (op.pyVal x y)
 
 end Reduino.Lang
